@@ -82,6 +82,17 @@ func main() {
 					r.Findings = append(r.Findings, q.Findings...)
 				}
 			}
+			if len(os.Args) > 2 && os.Args[2] == "makecap" {
+				r = ruleMakeCapAny(c, func(string) bool { return true })
+			}
+			if len(os.Args) > 2 && os.Args[2] == "cwidth" {
+				r = &RuleResult{Rule: "COUNTERWIDTH"}
+				for _, pk := range []string{"graph", "graph/search", "dawg", "disjoint", "sortints", "ints", "comb", "itertools", "tsp"} {
+					q := ruleCounterWidth(c, pk)
+					r.Instances = append(r.Instances, q.Instances...)
+					r.Findings = append(r.Findings, q.Findings...)
+				}
+			}
 			if len(os.Args) > 2 && os.Args[2] == "fixed" {
 				r = &RuleResult{Rule: "FIXEDARRAY"}
 				for _, pk := range []string{"graph", "graph/search", "dawg", "disjoint", "sortints", "ints", "comb", "itertools", "tsp"} {
